@@ -92,7 +92,7 @@ func histFamiliesW(c *CheckRun, wantFan bool, light bool) []histB {
 func cheapBig(bs []histB) []histB {
 	var out []histB
 	for _, b := range bs {
-		if b.big && !b.noSym {
+		if (b.big && !b.noSym) || b.mid {
 			continue
 		}
 		out = append(out, b)
@@ -287,13 +287,13 @@ func rangeScenarios(c *CheckRun) []*Scenario {
 	out = append(out, histB{kind: kindAlphaB, mask: ckRange, label: "sibling group before a long path",
 		ops: [][2]int{{opInsert, aSpec(0, 2)}, {opInsert, aSpec(0, 2)}, {opInsert, lg}, {opInsert, lg}}, extra: []int{lg, lg}}.scn())
 	for _, k := range []int{kindU16, kindI8} {
-		out = append(out, histB{kind: k, mask: ckRange, label: "numeric n=4",
-			ops: [][2]int{{opInsert, 0}, {opInsert, 0}, {opInsert, 0}, {opInsert, 0}}, extra: []int{0, 0}}.scn())
+		out = append(out, histB{kind: k, mask: ckRange, label: "numeric n=3",
+			ops: [][2]int{{opInsert, 0}, {opInsert, 0}, {opInsert, 0}}, extra: []int{0, 0}}.scn())
 	}
 	if c.Tier != "quick" {
 		out = append(out, histB{kind: kindAlphaB, mask: ckRange, label: "sibling groups (2,2,4,4)",
 			ops: [][2]int{{opInsert, aSpec(0, 2)}, {opInsert, aSpec(0, 2)}, {opInsert, aSpec(0, 4)}, {opInsert, aSpec(0, 4)}}, extra: []int{aSpec(0, 4), aSpec(0, 4)}}.scn())
-		for _, k := range []int{kindU32, kindI16} {
+		for _, k := range []int{kindU8, kindI8} {
 			out = append(out, histB{kind: k, mask: ckRange, label: "numeric n=4",
 				ops: [][2]int{{opInsert, 0}, {opInsert, 0}, {opInsert, 0}, {opInsert, 0}}, extra: []int{0, 0}}.scn())
 		}
